@@ -1,5 +1,6 @@
 (* C10 lemmas about CmpSel.v: the traced models return the model's result, the specified result and the specified calls. *)
 From VF Require Import C10.Model C10.Spec C10.CmpSel C10.ProofsCmp.
+From Coq Require Import ZifyBool.
 Local Open Scope Z_scope.
 
 (* ---------- lemmas ---------- *)
@@ -75,3 +76,49 @@ Proof. destruct c; cbn [zcmp_of]; rewrite ?ordered_cmp_sgn; lia. Qed.
 Lemma zcmp_sign_monotone c a b t : (zcmp_of c b a <? 0) = false ->
   ((zcmp_of c b t <? 0) = true -> (zcmp_of c a t <? 0) = true) /\ ((zcmp_of c b t <=? 0) = true -> (zcmp_of c a t <=? 0) = true).
 Proof. destruct c; cbn [zcmp_of]; rewrite ?ordered_cmp_sgn; lia. Qed.
+
+(* ---------- Index / Contains for an arbitrary element equality ---------- *)
+Lemma count_while_bounds p : forall s, 0 <= count_while p s <= Z.of_nat (length s).
+Proof. induction s as [|x t IH]; cbn [count_while length]; [lia|]. destruct (p x); lia. Qed.
+
+Lemma index_from_by_spec eq v : forall s i,
+  index_from_by eq s v i =
+  (let k := count_while (fun x => negb (eq v x)) s in if k <? Z.of_nat (length s) then i + k else -1).
+Proof.
+  induction s as [|x t IH]; intros i; cbn [index_from_by count_while length]; [reflexivity|].
+  destruct (eq v x); cbn [negb].
+  - cbv zeta. destruct (Z.ltb_spec 0 (Z.of_nat (S (length t)))); lia.
+  - rewrite IH. cbv zeta. pose proof (count_while_bounds (fun x => negb (eq v x)) t).
+    set (k := count_while (fun x0 => negb (eq v x0)) t) in *.
+    destruct (Z.ltb_spec k (Z.of_nat (length t))); destruct (Z.ltb_spec (1 + k) (Z.of_nat (S (length t)))); lia.
+Qed.
+
+Lemma index_by_spec eq s v : index_by eq s v = spec_index eq s v.
+Proof. unfold index_by, spec_index. rewrite index_from_by_spec. cbv zeta. destruct (_ <? _); lia. Qed.
+
+Lemma contains_by_spec eq s v : contains_by eq s v = existsb (eq v) s.
+Proof.
+  unfold contains_by. rewrite index_by_spec. unfold spec_index. cbv zeta.
+  induction s as [|x t IH]; cbn [count_while existsb length]; [reflexivity|].
+  pose proof (count_while_bounds (fun x => negb (eq v x)) t).
+  destruct (eq v x); cbn [negb orb].
+  - destruct (Z.ltb_spec 0 (Z.of_nat (S (length t)))); [reflexivity|lia].
+  - rewrite <- IH. set (k := count_while (fun x0 => negb (eq v x0)) t) in *.
+    destruct (Z.ltb_spec k (Z.of_nat (length t))); destruct (Z.ltb_spec (1 + k) (Z.of_nat (S (length t)))); try lia;
+    destruct (Z.geb_spec k 0); destruct (Z.geb_spec (1 + k) 0); try lia; reflexivity.
+Qed.
+
+(* the native instance is the model of Model.v *)
+Lemma index_by_native s v : index_by Z.eqb s v = index s v.
+Proof.
+  unfold index_by, index. generalize 0. induction s as [|x t IH]; intros i; cbn [index_from_by index_from]; [reflexivity|].
+  destruct (v =? x); [reflexivity|apply IH].
+Qed.
+(* the partial relation: the NaN code equals nothing and is neither below nor above anything *)
+Lemma partial_nan a : eq_of EPartial nan_code a = false /\ eq_of EPartial a nan_code = false /\
+  lt_of EPartial nan_code a = false /\ lt_of EPartial a nan_code = false /\ cmp3_by (lt_of EPartial) a nan_code = 0.
+Proof.
+  unfold eq_of, lt_of, cmp3_by, nan_code. repeat split; try lia.
+  simpl (-1 =? -1). cbn [negb]. rewrite !andb_false_r. destruct (a <? -1); reflexivity.
+Qed.
+
